@@ -65,6 +65,15 @@ class Evaluator:
             return v
         if isinstance(node, ast.IfExp):
             return self.value(node.body, env) if self.value(node.test, env) else self.value(node.orelse, env)
+        if isinstance(node, ast.Name) and isinstance(node.ctx, ast.Load):
+            # an explaining local: the single assignment that defines it, when nothing it mentions changes in between
+            d = _single_local_def(node)
+            if d is not None:
+                depth = env.get("__depth__", 0)
+                if depth < 6:
+                    e2 = dict(env)
+                    e2["__depth__"] = depth + 1
+                    return self.value(d, e2)
         return self.prog.const(self.module, node, self.cls)
 
     def eval3(self, test, env):
@@ -135,6 +144,65 @@ class Evaluator:
             if v is UNKNOWN or v != f.pol:
                 return False
         return True
+
+
+def _enclosing_function(node):
+    p = getattr(node, "_parent", None)
+    while p is not None and not isinstance(p, (ast.FunctionDef, ast.AsyncFunctionDef, ast.Lambda)):
+        p = getattr(p, "_parent", None)
+    return p if isinstance(p, (ast.FunctionDef, ast.AsyncFunctionDef)) else None
+
+
+_DEF_CACHE = {}
+
+
+def _single_local_def(name_node):
+    """value expression of the only assignment to this local in its function, if that assignment precedes the use, is not
+    in a loop the use is outside of, and nothing the expression mentions is assigned between it and the use"""
+    fn = _enclosing_function(name_node)
+    if fn is None:
+        return None
+    key = (id(fn), name_node.id)
+    if key not in _DEF_CACHE:
+        params = {a.arg for a in fn.args.args + fn.args.kwonlyargs}
+        stores = []
+        if name_node.id not in params:
+            for n in ast.walk(fn):
+                if isinstance(n, ast.Name) and n.id == name_node.id and isinstance(n.ctx, (ast.Store, ast.Del)):
+                    stores.append(n)
+        d = None
+        if len(stores) == 1:
+            st = getattr(stores[0], "_parent", None)
+            if isinstance(st, ast.Assign) and len(st.targets) == 1 and st.targets[0] is stores[0]:
+                d = st
+        _DEF_CACHE[key] = d
+    st = _DEF_CACHE[key]
+    if st is None or st.lineno >= name_node.lineno:
+        return None
+    # loops: the definition must not sit in a loop that does not also contain the use
+    p = getattr(st, "_parent", None)
+    while p is not None and p is not fn:
+        if isinstance(p, (ast.For, ast.While)) and not any(x is name_node for x in ast.walk(p)):
+            return None
+        p = getattr(p, "_parent", None)
+    # a container that is filled after its creation is not described by its defining expression
+    if isinstance(st.value, (ast.List, ast.Dict, ast.Set, ast.ListComp, ast.DictComp, ast.SetComp)) or \
+            (isinstance(st.value, ast.Call) and norm(st.value.func) in ("list", "dict", "set", "bytearray", "collections.OrderedDict")):
+        return None
+    for n in ast.walk(fn):
+        if isinstance(n, ast.Call) and isinstance(n.func, ast.Attribute) and isinstance(n.func.value, ast.Name) and n.func.value.id == name_node.id \
+                and st.lineno < n.lineno <= name_node.lineno:
+            return None         # a method was called on it in between (may change it)
+        if isinstance(n, ast.Subscript) and isinstance(n.ctx, (ast.Store, ast.Del)) and isinstance(n.value, ast.Name) and n.value.id == name_node.id:
+            return None
+    mentioned = {norm(x) for x in ast.walk(st.value) if isinstance(x, (ast.Name, ast.Attribute))}
+    for n in ast.walk(fn):
+        if isinstance(n, (ast.Name, ast.Attribute)) and isinstance(n.ctx, (ast.Store, ast.Del)) and st.lineno < getattr(n, "lineno", 0) <= name_node.lineno:
+            if norm(n) in mentioned:
+                return None
+        if isinstance(n, ast.AugAssign) and st.lineno < n.lineno <= name_node.lineno and norm(n.target) in mentioned:
+            return None
+    return st.value
 
 
 def _cmp(op, a, b):
